@@ -5,6 +5,8 @@ prints the table for DESIGN §7.3."""
 import json, glob, os, re, sys
 DEST='/verif/seeded'
 notes=json.load(open('/verif/tools/seed_notes2.json'))
+notes.update(json.load(open('/verif/tools/seed_notes3.json')))
+ONLY=sys.argv[1] if len(sys.argv)>1 else ''
 final={}
 for f in sorted(glob.glob(DEST+'/RESULTS.seed*.tsv')):
     sd=re.search(r'seed(\d+)',f).group(1)
@@ -12,7 +14,7 @@ for f in sorted(glob.glob(DEST+'/RESULTS.seed*.tsv')):
         p=line.rstrip('\n').split('\t')
         if len(p)>=3: final.setdefault(p[0],{})[sd]=(p[2],p[3] if len(p)>3 else '')
 rows=[]
-for d in sorted(glob.glob(DEST+'/C*-[456]'), key=lambda x:(x.split('/')[-1][:3], int(x.split('-')[-1]))):
+for d in sorted(glob.glob(DEST+'/C*-[456789]'), key=lambda x:(x.split('/')[-1][:3], int(x.split('-')[-1]))):
     key=os.path.basename(d)
     m=json.load(open(d+'/meta.json'))
     am=m.get('agent_meta') or {}
@@ -20,7 +22,7 @@ for d in sorted(glob.glob(DEST+'/C*-[456]'), key=lambda x:(x.split('/')[-1][:3],
         first=m.get('quick_tier_exit_codes',{})
         conf=m.get('confirmed',{})
         new={
-          'seed': key, 'round': 2, 'breaks_property': key[:3],
+          'seed': key, 'round': 2 if int(key.split('-')[1])<=6 else 3, 'breaks_property': key[:3],
           'title': am.get('title',''), 'files_changed': am.get('files_changed',[]),
           'what_breaks': am.get('what_breaks',''), 'needs_to_manifest': am.get('needs_to_manifest',''),
           'violated_clause_as_quoted_by_its_author': am.get('violated_clause',''),
@@ -43,6 +45,8 @@ for d in sorted(glob.glob(DEST+'/C*-[456]'), key=lambda x:(x.split('/')[-1][:3],
     first=m.get('quick_tier_exit_status_with_change_first_version_of_the_check',{})
     fs=', '.join(f'{p}:{"caught" if c==1 else ("inconclusive" if c==2 else "missed")}' for p,c in first.items())
     fin=', '.join(f's{sd}:{"caught" if v[0]=="1" else "missed"}' for sd,v in sorted(final.get(key,{}).items()))
+    if ONLY and str(m.get('round')) != ONLY:
+        continue
     rows.append((key,(m.get('title') or m.get('what_breaks',''))[:110].replace('|','/'), fs, fin, m['note'].replace('|','/')))
 # round 1: add the final results too
 for d in sorted(glob.glob(DEST+'/C*-[123]')):
